@@ -431,7 +431,7 @@ class Verifier:
         specs = [spec.instances() for _, spec in c.params]
         read_specs = [spec.instances() for _, _, spec in c.reads]
         for combo in itertools.product(*(specs + read_specs)):
-            label = ','.join(l for l, _ in combo)
+            label = ','.join(i[0] for i in combo)
             yield label, combo
 
     def verify(self, c, only=None):
@@ -455,11 +455,11 @@ class Verifier:
     def make_ctx(self, c, st, combo, ip):
         args = {}
         n = len(c.params)
-        for (pname, _), (lab, mk) in zip(c.params, combo[:n]):
-            args[pname] = mk(st, pname)
+        for (pname, _), inst in zip(c.params, combo[:n]):
+            args[pname] = inst[1](st, pname)
         ctx = Ctx(st, args, ip)
-        for (mod, var, _), (lab, mk) in zip(c.reads, combo[n:]):
-            v = mk(st, var)
+        for (mod, var, _), inst in zip(c.reads, combo[n:]):
+            v = inst[1](st, var)
             st.global_over[(mod, var)] = v
             ctx.reads[var] = v
         if c.setup is not None:
